@@ -97,6 +97,8 @@ def run(ctx, chk, tier="quick"):
     )
     chk.assumptions = ["PEST names are case-insensitive", "yaml.dump writes a float list as '- <repr>' lines (number starts in column 3)",
                        "repr(float) is at most 24 characters", "foreign keys hold in the dataset (enforced at load; level ids contained in the grid: C13.O5)"]
+    from .. import sqltypes
+    sqltypes.check(ctx, chk, "C19.O3", modules=("pestfiles",), views=("average_rising_depth", "average_recession_time"))
     mod = ctx.repo.module("pestfiles")
     subst = {}
     for view, child, sym in (("average_rising_depth", "rising_interval_zeta", "N_rise"),
